@@ -25,6 +25,7 @@ type c07Case struct {
 	Constraints  []hx.MConstraint `json:"constraints"` // a root entry "@ROOTIDS@" stands for all layout root ids
 	Flip         string           `json:"flip"`
 	E2E          bool             `json:"e2e"`
+	RootsForm    string           `json:"roots_form"` // star | empty | nil : root list of EVERY constraint
 	Second       string           `json:"second"` // e2e only: none | accept-before | accept-after (another step that accepts the same certificate by wildcard)
 	Wrapper      string           `json:"wrapper"`
 }
@@ -147,7 +148,8 @@ func chainTruth(c c07Case) bool {
 
 func c07Gen(t *rapid.T) c07Case {
 	c := c07Case{Leaf: "leaf", Wrapper: "legacy", E2E: rapid.IntRange(0, 3).Draw(t, "e2e") == 0,
-		Second: rapid.SampledFrom([]string{"none", "accept-before", "accept-after"}).Draw(t, "second")}
+		Second: rapid.SampledFrom([]string{"none", "accept-before", "accept-after"}).Draw(t, "second"),
+		RootsForm: rapid.SampledFrom([]string{"star", "star", "star", "empty", "nil"}).Draw(t, "rootsform")}
 	nInter := rapid.IntRange(0, 2).Draw(t, "ninter")
 	twoRoots := rapid.Bool().Draw(t, "tworoots")
 	c.PKI.Certs = append(c.PKI.Certs, hx.PKICert{Name: "r0", IsCA: true, Validity: "valid", KeyKind: "p256"})
@@ -388,6 +390,15 @@ func c07Gen(t *rapid.T) c07Case {
 		}
 	}
 	c.PKI.Certs = append(c.PKI.Certs, leaf)
+	if c.RootsForm != "star" {
+		for i := range c.Constraints {
+			if c.RootsForm == "empty" {
+				c.Constraints[i].Roots = []string{}
+			} else {
+				c.Constraints[i].Roots = nil
+			}
+		}
+	}
 	return c
 }
 
